@@ -7,7 +7,7 @@ import time
 from common import (SCRATCH, SHIM, SIM_BIN, WORKERS, HarnessError, fresh_dir, load_known_findings, log, save_replay,
                     tree_fingerprint)
 
-RUNS = {("C15", "quick"): 4000, ("C15", "thorough"): 120000, ("C09", "quick"): 4000, ("C09", "thorough"): 120000}
+RUNS = {("C15", "quick"): 40000, ("C15", "thorough"): 1200000, ("C09", "quick"): 40000, ("C09", "thorough"): 1200000}
 
 
 def seam_env():
